@@ -30,11 +30,19 @@ def pollChoices (c : Chan) : List (List Nat) :=
     allPicks (c.syncQ.length + c.asyncQ.length - 1)
   else [[]]
 
+/-- The task holds a parked notification although the substream is below its boundary again (the flush that
+made room ran after the notification was parked): the next poll would hand it over, but the task is only polled
+when something wakes it, and whether a queue's waker is still registered depends on the order in which `select!`
+polled the queues. In this state (and only here a poll without a wake-up is not a no-op) the driver follows both. -/
+def stalled (c : Chan) : Bool := c.alive && !c.signalled && c.parked.isSome && c.sinkBytes < c.cfg.boundary
+
 /-- `run`: poll the task, then let waiting async sends proceed, until nothing moves; every choice of the task. -/
 def runLoop (c : Chan) (sent : List String) (ended : Option Bool) : Nat → List (Chan × List String × Option Bool)
   | 0 => [(c, sent, ended)]
   | fuel + 1 =>
-    dedup <| (dedup ((pollChoices c).map fun picks => taskPoll c picks)).flatMap fun (c1, e) =>
+    let polls := dedup ((pollChoices c).map fun picks => taskPoll c picks)
+    let polls := if stalled c then (c, none) :: polls else polls
+    dedup <| polls.flatMap fun (c1, e) =>
       let ended := if e.isSome then e else ended
       let (c2, sent) :=
         if !c1.alive then ({ c1 with waiting := [] }, sent ++ c1.waiting.map fun m => s!"a{m.seq}:noconn")
@@ -59,6 +67,45 @@ def settle (st : State) (obs : Option String) (rs : List (Chan × String)) : Sta
       | some o => if rs.any (·.2 == o) then o else o0
       | none => o0
     ({ st with cands := dedup ((rs.filter (·.2 == want)).map (·.1)) }, want)
+
+def stepRun (st : State) (obs : Option String) : State × String :=
+  settle st obs <| st.cands.flatMap fun c =>
+    (runLoop c [] none 4096).map fun (c, sent, ended) =>
+      (c, "ok" ++ (if sent.isEmpty then "" else s!" sent=[{joinWith " " sent}]") ++
+        (match ended with | some true => " ended notice" | some false => " ended" | none => ""))
+
+def stepRead (st : State) (arg : Option Nat) (obs : Option String) : State × String :=
+  match st.cands, obs with
+  | [], _ => (st, "bad-op")
+  | _, none => (st, "need-observation")
+  | c0 :: _, some o =>
+    let inner := (o.drop 1).dropEnd 1
+    let labels := (tokens inner.toString).map parseLabel
+    if !o.startsWith "[" || labels.any (·.isNone) then (st, "mismatch unparsable observation")
+    else
+      let nOf (c : Chan) : Nat := match arg with | some n => min n c.pipeFill | none => c.pipeFill
+      let ok := st.cands.filterMap fun c => remoteRead c (nOf c) (labels.filterMap id)
+      if ok.isEmpty then (st, s!"mismatch: {nOf c0} bytes cannot yield {o}")
+      else ({ st with cands := dedup ok }, o)
+
+/-- Nothing is on its way to the remote any more. -/
+def drained (c : Chan) : Bool :=
+  c.pipeFill == 0 &&
+    (!c.alive || (c.carry == 0 && c.sinkBytes == 0 && c.parked.isNone && c.syncQ.isEmpty && c.asyncQ.isEmpty && c.sBuf.isEmpty &&
+      c.aBuf.isEmpty && c.waiting.isEmpty))
+
+/-- `drain` = `run`, `rread` in turns; the observation lists the single outputs, then `quiet`. -/
+def stepDrain (st : State) (parts : List String) : State × List String :=
+  let rec go (st : State) (isRun : Bool) : List String → State × List String
+    | [] => (st, [])
+    | ["quiet"] =>
+      let ok := st.cands.filter drained
+      if ok.isEmpty then (st, ["not-quiet"]) else ({ st with cands := ok }, ["quiet"])
+    | p :: rest =>
+      let (st1, o) := if isRun then stepRun st (some p) else stepRead st none (some p)
+      let (st2, os) := go st1 (!isRun) rest
+      (st2, o :: os)
+  go st true parts
 
 def step (st : State) (line : String) : State × String :=
   let (opPart, obs) := match line.splitOn " -> " with
@@ -94,24 +141,16 @@ def step (st : State) (line : String) : State × String :=
           let (c, r) := asyncSend c ⟨1, seq, size⟩
           (c, resWord r)
       | _, _ => (st, "bad-op")
-    | ["run"] =>
-      settle st obs <| st.cands.flatMap fun c =>
-        (runLoop c [] none 4096).map fun (c, sent, ended) =>
-          (c, "ok" ++ (if sent.isEmpty then "" else s!" sent=[{joinWith " " sent}]") ++
-            (match ended with | some true => " ended notice" | some false => " ended" | none => ""))
+    | ["run"] => stepRun st obs
     | "rread" :: rest =>
+      if !st.everOpened then (st, "ignored") else stepRead st (rest.head?.bind (·.toNat?)) obs
+    | ["drain"] =>
       if !st.everOpened then (st, "ignored") else
       match obs with
       | none => (st, "need-observation")
       | some o =>
-        let inner := (o.drop 1).dropEnd 1
-        let labels := (tokens inner.toString).map parseLabel
-        if labels.any (·.isNone) then (st, "mismatch unparsable observation")
-        else
-          let nOf (c : Chan) : Nat := match rest.head?.bind (·.toNat?) with | some n => min n c.pipeFill | none => c.pipeFill
-          let ok := st.cands.filterMap fun c => remoteRead c (nOf c) (labels.filterMap id)
-          if ok.isEmpty then (st, s!"mismatch: {nOf c0} bytes cannot yield {o}")
-          else ({ st with cands := dedup ok }, o)
+        let (st, outs) := stepDrain st ((o.splitOn " | ").map fun p => p.trimAscii.toString)
+        (st, joinWith " | " outs)
     | ["rsend", seq, size] =>
       if !st.everOpened then (st, "ignored") else
       match seq.toNat?, size.toNat? with
